@@ -97,7 +97,7 @@ func (c *compiler) compile() (string, error) {
 			if c.curStmt != nil {
 				s = c.curStmt
 			}
-			if be := blockErrorOf(err, c.program); be != nil {
+			if be := blockErrorOf(err, c.loopControl); be != nil {
 				s = be.stmt
 			}
 			return "", fmt.Errorf("line %d: %w", s.T().LineNumber, err)
